@@ -52,11 +52,11 @@ Definition tally_bkava (e : env) (s : state) (a : nat) (opts : list (nat * Z)) (
   fold_left (fun t i =>
     let h := held s a i in
     let v := vals s i in
-    if (0 <? h) && v_exists v then
+    (* a derivative carries power only while its validator is in the bonded set *)
+    if (0 <? h) && v_exists v && curr s i then
       if v_shares v =? 0 then mkAcc (t_res t) (t_total t) (t_ded t) true else
-      let ded' := if curr s i then upd (t_ded t) i (t_ded t i + dec_of_int h) else t_ded t in
       let vp := dec_of_int (derivative_value v h) in
-      mkAcc (add_power (t_res t) opts vp) (t_total t + vp) ded' (t_panic t)
+      mkAcc (add_power (t_res t) opts vp) (t_total t + vp) (upd (t_ded t) i (t_ded t i + dec_of_int h)) (t_panic t)
     else t) (seq 0 (nval e)) t.
 
 Definition tally_votes (e : env) (s : state) (votes : list vote) (t : acc) : acc :=
